@@ -907,7 +907,11 @@ class GroupBy:
                 else:
                     pointer = self._group_key_pointers[first_chunk_in + j]
                 combined[pointer] = numba_funcs.reduce_array_pair(
-                    combined[pointer], result, reducer=reducer, counts=count[pointer]
+                    combined[pointer],
+                    result,
+                    reducer=reducer,
+                    counts=count[pointer],
+                    y_counts=counts_one_value[j][:-1],
                 )
                 count[pointer] += counts_one_value[j][:-1]  # ignore null group
             individual_results.append((combined, count))
